@@ -11,6 +11,11 @@ CHECKS = {
          "Every submission of every generated history is executed by the real Chains.Add on the real SQL stack; after it the whole headers table, the tip and the Add answer are compared with a declarative model written from the statement. Bounded-exhaustive over all labelled trees with <=3 (quick) / <=4 (thorough) new headers x work classes x all arrival orders, random histories up to 400 submissions beyond that. Held-on-what-was-observed, not a proof.",
          "Trusted: the reference model (harness/refmodel) as transcription of the statement; SQLite only; histories rooted at the mainnet genesis.",
          "DESIGN.md §5 C01"),
+ "C05": ("fault_enumeration",
+         "runtime monitoring with fault injection: repository-interface decorator fails/kills at EVERY write-transaction boundary of every history (in-process abandonment for all points, real SIGKILL of a child process for a seeded sample), then restart + double redelivery; oracles = structural invariant, acknowledged-header immutability, row-for-row equality with the uninterrupted run",
+         "For each generated history (reorganisations of depth 1..4 quick / 1..8 thorough, branch switches, extensions, orphans, duplicates) the number W of repository write calls of the uninterrupted run is measured and the history is re-executed W x {kill-before, kill-after, error-instead} times on the real SQLite stack with exactly one fault, followed by database.Init on the same file and two redeliveries. Complete over the write boundaries of the histories generated; the histories themselves are sampled.",
+         "Trusted: a write boundary = one call of repository.Headers.AddHeaderToDatabase/UpdateState (each is one committed SQL transaction, validated by the real-SIGKILL sample); ingestion stops at an injected write error (weakest reading); SQLite only.",
+         "DESIGN.md §5 C05"),
 }
 
 NOT_YET = "check not built yet in this session (work in progress; design in DESIGN.md §5)"
